@@ -9,7 +9,7 @@ CONSTANTS FailFastOn = "anyerr"
  MaxN = 2
  KindsMC = {"ok", "err", "ctx"}
  FailFastMC = {TRUE}
- WaitMC = {TRUE, FALSE}
+ WaitMC = {TRUE}
  MaxPanics = 0
  RootMC = {}
  Reduce = FALSE
